@@ -15,7 +15,6 @@ contraction code):
   * site gate / control: matrix[out, in].
   * process-tensor MPO (process_tensor.set_mpo_tensor): (past bond, future bond, in, out).
 """
-import itertools
 import types
 
 import numpy as np
@@ -23,7 +22,6 @@ import numpy as np
 import oqupy.process_tensor as ptm
 from oqupy.mps_mpo import NnGate
 
-from . import sym
 from .sym import S, SI
 
 
@@ -159,9 +157,12 @@ def sparse_matrix(inp, name, D, shift, extra=True):
     """generalised permutation with symbolic weights (+ one concrete extra entry unless
     extra=False): keeps polynomial sizes small, still non-commuting and asymmetric"""
     t = inp.const(np.zeros((D, D)))
-    v = inp.arr(name, (D,))
     for i in range(D):
-        t[i, (i + shift) % D] = v[i]
+        # symbolic weight, unconstrained in the symbolic run; the concrete validation points
+        # avoid 0 (a chain state that is exactly zero is not a state: the real SVD then
+        # truncates the bond to dimension 0)
+        nm = "%s_%d" % (name, i)
+        t[i, (i + shift) % D] = inp.real(nm) if inp.mode == "sym" else inp.real(nm, nonzero=True)
     if not extra:
         return t
     if shift % D != 0:
@@ -169,6 +170,49 @@ def sparse_matrix(inp, name, D, shift, extra=True):
     else:
         t[0, 1] = inp.one()
     return t
+
+
+def tp_matrix(inp, name, d, kind, traceless=False, shift=1):
+    """superoperator that is trace preserving BY CONSTRUCTION (traceless=True: output trace
+    identically 0): the rows of the diagonal Liouville indices are eliminated.
+    kind 'dense' (all other entries symbolic) or 'perm' (generalised permutation)."""
+    D = d * d
+    dp = [k * (d + 1) for k in range(d)]
+    if kind == "dense":
+        m = inp.arr(name, (D, D))
+        for j in range(D):
+            acc = inp.one() if (j in dp and not traceless) else inp.zero()
+            for i in dp[1:]:
+                acc = acc - m[i, j]
+            m[0, j] = acc
+        return m
+    # generalised permutation that maps the diagonal Liouville indices among themselves
+    # (d = 2: shift 1 -> (0 3)(1 2), shift 2 -> (1 2), shift 3 -> (0 3), else identity); for
+    # the traceless variant any column pattern is admissible, the rows of dp are zero
+    assert d == 2
+    perm = {1: [3, 2, 1, 0], 2: [0, 2, 1, 3], 3: [3, 1, 2, 0]}.get(shift, [0, 1, 2, 3])
+    m = inp.const(np.zeros((D, D)))
+    for i in range(D):
+        j = perm[i] if not traceless else (i + shift) % D
+        if i in dp:
+            m[i, j] = inp.one() if not traceless else inp.zero()
+        else:
+            nm = "%s_%d" % (name, i)
+            m[i, j] = inp.real(nm) if inp.mode == "sym" else inp.real(nm, nonzero=True)
+    return m
+
+
+def make_tp_gate(inp, name, d, kind):
+    """chi = 2 two-site gate A1 (x) B1 + A2 (x) B2 with A1, B1 trace preserving and A2 of zero
+    output trace: trace preserving by construction (a family, not every such gate)"""
+    D = d * d
+    gl = inp.const(np.zeros((D, D, 2)))
+    gr = inp.const(np.zeros((2, D, D)))
+    gl[:, :, 0] = tp_matrix(inp, name + "A1", d, kind, shift=1)
+    gl[:, :, 1] = tp_matrix(inp, name + "A2", d, kind, traceless=True, shift=2)
+    gr[0, :, :] = tp_matrix(inp, name + "B1", d, kind, shift=3)
+    gr[1, :, :] = inp.arr(name + "B2", (D, D)) if kind == "dense" else sparse_matrix(inp, name + "B2", D, 1, extra=False)
+    return gl, gr
 
 
 def make_gate(inp, name, dl, dr, chi, kind="dense"):
